@@ -67,9 +67,24 @@ func makeRouteTree(l *slog.Logger, routes []Route, allowMTU bool) (*bart.Table[r
 	return routeTree, nil
 }
 
-func parseRoutes(c *config.C, networks []netip.Prefix) ([]Route, error) {
-	var err error
+// toInt converts a config value that must be an integer, given either as a YAML integer or as a
+// decimal string, without ever panicking on other YAML types.
+func toInt(v any, bitSize int) (int, error) {
+	switch t := v.(type) {
+	case int:
+		return t, nil
+	case string:
+		if bitSize == 0 {
+			return strconv.Atoi(t)
+		}
+		i, err := strconv.ParseInt(t, 10, bitSize)
+		return int(i), err
+	default:
+		return 0, fmt.Errorf("found %T", v)
+	}
+}
 
+func parseRoutes(c *config.C, networks []netip.Prefix) ([]Route, error) {
 	r := c.Get("tun.routes")
 	if r == nil {
 		return []Route{}, nil
@@ -96,12 +111,9 @@ func parseRoutes(c *config.C, networks []netip.Prefix) ([]Route, error) {
 			return nil, fmt.Errorf("entry %v.mtu in tun.routes is not present", i+1)
 		}
 
-		mtu, ok := rMtu.(int)
-		if !ok {
-			mtu, err = strconv.Atoi(rMtu.(string))
-			if err != nil {
-				return nil, fmt.Errorf("entry %v.mtu in tun.routes is not an integer: %v", i+1, err)
-			}
+		mtu, err := toInt(rMtu, 0)
+		if err != nil {
+			return nil, fmt.Errorf("entry %v.mtu in tun.routes is not an integer: %v", i+1, err)
 		}
 
 		if mtu < 500 {
@@ -172,12 +184,9 @@ func parseUnsafeRoutes(c *config.C, networks []netip.Prefix) ([]Route, error) {
 
 		var mtu int
 		if rMtu, ok := m["mtu"]; ok {
-			mtu, ok = rMtu.(int)
-			if !ok {
-				mtu, err = strconv.Atoi(rMtu.(string))
-				if err != nil {
-					return nil, fmt.Errorf("entry %v.mtu in tun.unsafe_routes is not an integer: %v", i+1, err)
-				}
+			mtu, err = toInt(rMtu, 0)
+			if err != nil {
+				return nil, fmt.Errorf("entry %v.mtu in tun.unsafe_routes is not an integer: %v", i+1, err)
 			}
 
 			if mtu != 0 && mtu < 500 {
@@ -190,12 +199,9 @@ func parseUnsafeRoutes(c *config.C, networks []netip.Prefix) ([]Route, error) {
 			rMetric = 0
 		}
 
-		metric, ok := rMetric.(int)
-		if !ok {
-			_, err = strconv.ParseInt(rMetric.(string), 10, 32)
-			if err != nil {
-				return nil, fmt.Errorf("entry %v.metric in tun.unsafe_routes is not an integer: %v", i+1, err)
-			}
+		metric, err := toInt(rMetric, 32)
+		if err != nil {
+			return nil, fmt.Errorf("entry %v.metric in tun.unsafe_routes is not an integer: %v", i+1, err)
 		}
 
 		if metric < 0 || metric > math.MaxInt32 {
@@ -246,12 +252,9 @@ func parseUnsafeRoutes(c *config.C, networks []netip.Prefix) ([]Route, error) {
 					rGatewayWeight = 1
 				}
 
-				gatewayWeight, ok := rGatewayWeight.(int)
-				if !ok {
-					_, err = strconv.ParseInt(rGatewayWeight.(string), 10, 32)
-					if err != nil {
-						return nil, fmt.Errorf("entry .weight in tun.unsafe_routes[%v].via[%v] is not an integer", i+1, ig+1)
-					}
+				gatewayWeight, err := toInt(rGatewayWeight, 32)
+				if err != nil {
+					return nil, fmt.Errorf("entry .weight in tun.unsafe_routes[%v].via[%v] is not an integer", i+1, ig+1)
 				}
 
 				if gatewayWeight < 1 || gatewayWeight > math.MaxInt32 {
